@@ -48,7 +48,11 @@ type c19Att struct {
 func c19Script(s []c19Att) string {
 	p := make([]string, len(s))
 	for i, a := range s {
-		p[i] = fmt.Sprintf("%c:%d", a.out, a.dur)
+		out := a.out
+		if out == 'd' {
+			out = 'f' // an attempt that ran into ITS OWN time-out is an ordinary failure for the model
+		}
+		p[i] = fmt.Sprintf("%c:%d", out, a.dur)
 	}
 	return strings.Join(p, ",")
 }
@@ -109,6 +113,9 @@ func c19RunRetry(t *testing.T, script []c19Att, cancelAt int64) (obs c19RetryObs
 				return ErrNoRetry{errors.New("verif: fatal")}
 			case 'c':
 				return fmt.Errorf("verif: attempt aborted: %w", context.Canceled)
+			case 'd':
+				// (e.g. the HTTP client's own time-out: the operation's context is alive)
+				return fmt.Errorf("verif: attempt timed out: %w", context.DeadlineExceeded)
 			}
 			return errors.New("verif: attempt failed")
 		}
@@ -157,6 +164,15 @@ func c19Retry(t *testing.T, o *vOut, rng *mrand.Rand) {
 	const min = int64(time.Minute)
 	durs := []int64{0, 1, 1e9, 30e9, 10 * min, 7 * 60 * min, 3 * 24 * 60 * min}
 	// (1) k failures then success / non-retryable / cancellation error, k beyond the table length
+	for k := 0; k <= 6; k++ {
+		s := c19Fails(k, 0, 'o')
+		s = append([]c19Att{{'d', 0}}, s...)
+		if k > 1 {
+			s[k/2+1].out = 'd'
+		}
+		c19EmitRetry(t, o, s, -1)
+		o.Stat("retry_scripts_with_attempt_timeouts", 1)
+	}
 	for k := 0; k <= 40; k++ {
 		c19EmitRetry(t, o, c19Fails(k, 0, 'o'), -1)
 		if k <= 30 {
@@ -699,6 +715,26 @@ func c19Async(t *testing.T, o *vOut, rng *mrand.Rand) {
 			}
 			cache4.Stop()
 			o.Stat("async_no_retry_paths_checked", 2)
+			// … and an issuer whose PRE-CHECK refuses for the first kp attempts (its only issuer): each
+			// such attempt is a failed attempt like any other — retried on schedule, the job neither
+			// lost nor ended by a panic — and the certificate arrives once the pre-check passes
+			kp := 1 + k%3
+			iss5 := &c19PreIssuer{vIssuer: vNewIssuer("i", ca), failFirst: kp}
+			cache5, cfg5 := vNewCfg(vNewMem(), []Issuer{iss5}, far)
+			var perr error
+			func() {
+				defer func() {
+					if r := recover(); r != nil {
+						perr = fmt.Errorf("panic: %v", r)
+					}
+				}()
+				perr = cfg5.ObtainCertAsync(ctx, "c19.example")
+			}()
+			if perr != nil || len(iss5.Calls()) != 1 || iss5.prechecks != kp+1 {
+				o.Mon("C19 async-obtain failed-pre-check-not-retried", map[string]any{"refusals": kp, "pre_checks": iss5.prechecks, "issuer_calls": len(iss5.Calls()), "error": fmt.Sprint(perr)})
+			}
+			cache5.Stop()
+			o.Stat("async_precheck_paths_checked", 1)
 			o.Stat("traces_validated", 2)
 			o.Stat("async_attempts_checked", len(iss.Calls())+len(iss2.Calls()))
 			if !c19JMIdle() {
@@ -1052,4 +1088,19 @@ func TestVerifC19(t *testing.T) {
 	c19Dir(t, o, rng)
 	c19Issue(t, o, rng)
 	c19Stress(t, o)
+}
+
+// an issuer double with a pre-check that refuses its first `failFirst` calls
+type c19PreIssuer struct {
+	*vIssuer
+	failFirst int
+	prechecks int
+}
+
+func (i *c19PreIssuer) PreCheck(_ context.Context, _ []string, _ bool) error {
+	i.prechecks++
+	if i.prechecks <= i.failFirst {
+		return errors.New("verif: pre-check refuses")
+	}
+	return nil
 }
